@@ -558,9 +558,9 @@ def run(chk: Check) -> None:
     groups = []
     for fam, scen in fams.items():
         if fam == "obj" and not thorough:
-            # quick tier: every 2-variant object union, a deterministic quarter of the 3-variant ones (the design check above
+            # quick tier: every 2-variant object union, a deterministic fifth of the 3-variant ones (the design check above
             # is exhaustive in both tiers; the thorough tier replays all of them)
-            scen = [d for d in scen if len(d["u"]["vars"]) == 2 or stable_hash(ukey(d["u"]), chk.seed) % 4 == 0]
+            scen = [d for d in scen if len(d["u"]["vars"]) == 2 or stable_hash(ukey(d["u"]), chk.seed) % 5 == 0]
             chk.cov["exhaustive_replay"] = False
         if fam == "extra":
             # the annotated-property unions are replayed at ONE hash-chosen position each in the quick tier (positions are
